@@ -332,6 +332,10 @@ func c14Evaluate(r *vrep.R, sc c14Scenario, bound int, s *vsched.Sched, res *c14
 		}
 		if timely {
 			switch {
+			case m.live == 0 && m.block < end[n-1]:
+				// the machine listens from before its start block until it returns: in a
+				// schedule in which it is never starved every message finds its handler
+				fail("not-listening", fmt.Sprintf("timely schedule: message %s arrived in block %d (machine runs until block %d) and no receive handler was registered: it is lost", m.tag, m.block, end[n-1]))
 			case win >= 0 && m.live == 1 && count[m.tag] == 1 && !acceptable[where[m.tag]]:
 				fail("crossed-phase", fmt.Sprintf("timely schedule: message %s delivered in block %d (window of state %d) was handed to state %d", m.tag, m.block, win, where[m.tag]))
 			case win >= 0 && m.block >= sc.Start && m.live == 1 && count[m.tag] == 0 && m.block < end[n-1]:
